@@ -52,7 +52,7 @@ def ledger(ctx, taint, rule, scope=None):
         if all(is_const(core(e)) for e in s.ops) and s.kind.startswith(("Overflow", "BoundsCheck")):
             stats["const"] += 1
             continue
-        if s.kind in ("Overflow:Shr", "Overflow:Shl") and is_const(core(s.ops[1])) and 0 <= core(s.ops[1])[1] < 64:
+        if s.kind in ("Overflow:Shr", "Overflow:Shl") and is_const(core(s.ops[1])) and 0 <= core(s.ops[1])[1] < {"u8": 8, "i8": 8, "u16": 16, "i16": 16, "u32": 32, "i32": 32, "u128": 128, "i128": 128}.get((s.tys or [None])[0] or "usize", 64):
             stats["const"] += 1
             continue
         if s.kind.startswith("call:") and s.kind.split(":")[1] in T.CONST_ARG_OK and len(s.ops) > 1 and is_const(core(s.ops[1])) and core(s.ops[1])[1] > 0:
